@@ -4,6 +4,8 @@ import (
 	"bytes"
 	"fmt"
 	"io"
+	"os"
+	"path/filepath"
 	"strings"
 	"sync/atomic"
 
@@ -917,9 +919,12 @@ func runC11(r *core.Run) {
 
 	pool := samValidPool()
 	menu := corruptionMenu()
+	corruptScratch = filepath.Join(r.Root, ".scratch", fmt.Sprintf("c11-%d", os.Getpid()))
+	os.MkdirAll(corruptScratch, 0o755)
+	defer os.RemoveAll(corruptScratch)
 	maxLines := core.Pick(r, 3, 4)
 	r.Bound("sam-line-corruptions", fmt.Sprintf("every file of 1..%d lines from a pool of %d valid lines (3 alignments, 2 headers) x every alignment-line position x %d corruptions (keep only the first k fields k=1..10; each of the 5 integer fields <- 26 texts that are not a decimal integer in range ('', x, 1x, 1.5, 20 digits, ' 1', 0x10, a bare '-' or '+', --1, +-1, 1-, 1e3, 0b1, 0o7, 1_0, an Arabic-Indic and a full-width digit, MaxInt64+1, MinInt64-1, NaN, Inf, 1 NUL, '1 ', '.', '1,0'); a tag with no colon / one colon / unknown type / A with 0 or 2 bytes / i non-integer / f non-number / H odd or non-hex / empty tag field, appended or placed before the existing tags)", maxLines, len(pool), len(menu)))
-	core.Clause(r, "sam-line-corruptions", core.Opts{Rule: "every single-line corruption of every small valid file: ReaderHeader yields exactly one error in that line's position and the uncorrupted decode at every other position; Reader yields the records before, one error, the records after; non-trivial = all"},
+	core.Clause(r, "sam-line-corruptions", core.Opts{Rule: "every single-line corruption of every small valid file: ReaderHeader yields exactly one error in that line's position and the uncorrupted decode at every other position; Reader yields the records before, one error, the records after; FileHeader and File on a file holding the same bytes yield the same; non-trivial = all"},
 		func(emit func(c11Corrupt) bool) {
 			enum.Sequences(len(pool), maxLines, func(sq []int) bool {
 				if len(sq) == 0 {
@@ -992,7 +997,23 @@ func runC11(r *core.Run) {
 			if !sameShape(gr, want) {
 				return core.Failf("corruption %s of line %d: Reader on %q yields %s, want %s", c.Kind, c.At, badText, trunc(renderObs(gr), 300), trunc(renderObs(want), 300))
 			}
-			return core.Outcome{Class: strings.SplitN(c.Kind, "-", 2)[0], Nontrivial: true, Evals: 3}
+			// the same bytes through the other two entry points: File and FileHeader
+			path := filepath.Join(corruptScratch, fmt.Sprintf("c-%d.sam", corruptSeq.Add(1)))
+			if err := os.WriteFile(path, []byte(badText), 0o644); err == nil {
+				defer os.Remove(path)
+				fh, p4, _ := fileWalker("samh", path)(len(c.Lines) + 8)
+				fr, p5, _ := fileWalker("sam", path)(len(c.Lines) + 8)
+				if p4 != "" || p5 != "" {
+					return core.Failf("corruption %s of line %d: FileHeader / File panicked on %q: %s %s", c.Kind, c.At, badText, p4, p5)
+				}
+				if !sameShape(fh, got) {
+					return core.Failf("corruption %s of line %d: FileHeader on a file holding %q yields %s, ReaderHeader on those bytes %s", c.Kind, c.At, badText, trunc(renderObs(fh), 300), trunc(renderObs(got), 300))
+				}
+				if !sameShape(fr, want) {
+					return core.Failf("corruption %s of line %d: File on a file holding %q yields %s, want %s", c.Kind, c.At, badText, trunc(renderObs(fr), 300), trunc(renderObs(want), 300))
+				}
+			}
+			return core.Outcome{Class: strings.SplitN(c.Kind, "-", 2)[0], Nontrivial: true, Evals: 5}
 		})
 }
 
@@ -1002,3 +1023,8 @@ func numberTexts() []string {
 	return append([]string{"0", "-0", "1", ".5", "5.", "+5", "1E5", "1e-5", "1E+2", "0e0", "0.1", "0.1234567890123456789", "16777217", "3.4028236e38", "1e40", "-2.5e-50", "5e-324", "2.2250738585072014e-308", "1.7976931348623157e308",
 		"1e400", "1e999", "-1e999", "1e-999", "NaN", "nan", "NAN", "+nan", "-nan", "Inf", "inf", "INF", "+Inf", "-inf", "infinity", "Infinity", "-Infinity", "+INFINITY", "infinit", "in", "0x1p-2", "0x1.8p1", "0x10", "1_0", "1e", "e1", "", "1f", "1d", "1,5", "١", "９", "9007199254740993"}, sharpFloats()...)
 }
+
+var (
+	corruptScratch string
+	corruptSeq     atomic.Int64
+)
